@@ -3,17 +3,21 @@ C06 — translation is hygienic: user-chosen names never capture translator name
 Property statements over the scope model of Model/C06.lean (transcription of translate/tracking.go and of
 the patterns in which translator.go / pattern.go / unwind.go / projection.go / with.go / quantifiers.go use it).
 
-What is proved, for EVERY program of scope operations (every reachable scope):
-  * `fresh_ids`, `generated_names_never_user_keyed`, `alias_values_injective`  — hold for the code as it is;
+LIVE definition = the scope after the fix of F10: parameters have their own alias table
+(`parameterAliases`, `AliasParameter`, `ParameterLookup`), modelled as namespace-tagged keys `USym`.
+For EVERY program of scope operations (every reachable scope):
+  * `fresh_ids`, `generated_names_never_user_keyed`, `alias_values_injective`;
   * `alias_only_lookup` — results are invariant under any re-keying of user symbols that is injective on the
-    symbols in play (the general statement; user spellings are consulted only as alias keys);
-  * `scope_renaming_fixed` — full renaming invariance for namespace-separated keys (the repaired scope);
-  * `scope_renaming_partial` — renaming invariance of the code AS IT IS, provided no variable shares its
-    spelling with a parameter before and after the renaming;
-  * `c06_full_refuted` — without that proviso the statement is FALSE for the code as it is (F10 witness);
-  * `fallback_lookup_captures` — the `Lookup`-then-`AliasedLookup` fallback is not hygienic either (witness);
-  * `prune_alias_choice_unique` — the first-match loop of PruneDefinitions over the alias MAP does not depend
-    on iteration order on reachable scopes (used by C05).
+    symbols in play (user spellings are consulted only as alias keys);
+  * `scope_renaming_fixed` / `c06_full` — FULL renaming invariance for the live scope: every injective renaming
+    of variables/aliases and of parameters, including onto translator names and onto each other's spellings.
+About the OLD definition (one alias table shared by variables and parameters), kept as theorems `…_old`:
+  * `scope_renaming_partial_old` — invariance only when no variable is spelled like a parameter;
+  * `c06_full_refuted_old`, `f10_results_old` — the unrestricted statement was FALSE (F10 witness).
+Independent of the fix:
+  * `fallback_lookup_captures` — the `Lookup`-then-`AliasedLookup` fallback is not hygienic (witness; known finding);
+  * `prune_alias_choice_unique` — the first-match loops of PruneDefinitions over the alias maps do not depend on
+    iteration order on reachable scopes (used by C05).
 -/
 import Dawgs.Proofs.C06
 namespace Dawgs.C06.Props
@@ -109,7 +113,7 @@ theorem progKeys_map {K1 K2 : Type} (f : K1 → K2) : ∀ p : List (Op K1), prog
 collide), EVERY injective renaming of variables and of parameters leaves every result unchanged — including
 renamings onto translator names or onto each other's spellings. -/
 theorem scope_renaming_fixed (rv rp : String → String) (hv : Injective rv) (hp : Injective rp) (p : List (Op USym)) :
-    fixedResults (p.map (Op.mapKeys (USym.rename rv rp))) = fixedResults p :=
+    liveResults (p.map (Op.mapKeys (USym.rename rv rp))) = liveResults p :=
   alias_only_lookup (USym.rename rv rp) p (fun a _ b _ h => rename_injective hv hp a b h)
 
 /-- "variables and parameters live in disjoint key spaces" for a program: no two DIFFERENT user symbols it
@@ -132,22 +136,30 @@ theorem nsDisjoint_iff (p : List (Op USym)) :
 
 /-- on a program without cross-namespace spelling collisions the shared table behaves exactly like the
 separated one -/
-theorem go_eq_fixed_of_disjoint (p : List (Op USym)) (h : NsDisjoint p) : goResults p = fixedResults p :=
+theorem shared_eq_live_of_disjoint_old (p : List (Op USym)) (h : NsDisjoint p) : sharedResults_old p = liveResults p :=
   alias_only_lookup USym.erase p h
 
-/-- **scope_renaming_partial**: for the code AS IT IS (one alias table keyed by the bare spelling), injective
+/-- **scope_renaming_partial_old**: for the code AS IT IS (one alias table keyed by the bare spelling), injective
 renamings leave every result unchanged PROVIDED no variable/alias is spelled like a parameter, before and
 after the renaming. -/
-theorem scope_renaming_partial (rv rp : String → String) (hv : Injective rv) (hp : Injective rp) (p : List (Op USym))
+theorem scope_renaming_partial_old (rv rp : String → String) (hv : Injective rv) (hp : Injective rp) (p : List (Op USym))
     (h0 : NsDisjoint p) (h1 : NsDisjoint (p.map (Op.mapKeys (USym.rename rv rp)))) :
-    goResults (p.map (Op.mapKeys (USym.rename rv rp))) = goResults p := by
-  rw [go_eq_fixed_of_disjoint _ h1, go_eq_fixed_of_disjoint _ h0]
+    sharedResults_old (p.map (Op.mapKeys (USym.rename rv rp))) = sharedResults_old p := by
+  rw [shared_eq_live_of_disjoint_old _ h1, shared_eq_live_of_disjoint_old _ h0]
   exact scope_renaming_fixed rv rp hv hp p
 
-/-- The property at full strength on the scope level: the code as it is, every injective renaming. -/
+/-- The property at full strength on the scope level for the LIVE definition (separate parameter key space). -/
 def C06_full : Prop :=
   ∀ (rv rp : String → String), Injective rv → Injective rp → ∀ p : List (Op USym),
-    goResults (p.map (Op.mapKeys (USym.rename rv rp))) = goResults p
+    liveResults (p.map (Op.mapKeys (USym.rename rv rp))) = liveResults p
+
+/-- **c06_full**: the full statement holds for the live scope. -/
+theorem c06_full : C06_full := fun rv rp hv hp p => scope_renaming_fixed rv rp hv hp p
+
+/-- The same statement for the OLD definition (one shared alias table): false, see `c06_full_refuted_old`. -/
+def C06_full_old : Prop :=
+  ∀ (rv rp : String → String), Injective rv → Injective rp → ∀ p : List (Op USym),
+    sharedResults_old (p.map (Op.mapKeys (USym.rename rv rp))) = sharedResults_old p
 
 /-! F10 witness: `MATCH (n) WHERE n.name = $n RETURN n` binds the node `n` (→ n0), then looks the parameter
 `$n` up in the SAME table, finds the node binding and pushes its nil `Parameter`; with `$m` it defines pi0. -/
@@ -161,25 +173,25 @@ theorem swapNM_injective : Injective swapNM := by
   unfold swapNM at h
   by_cases ha : a = "n" <;> by_cases hb : b = "n" <;> by_cases ha' : a = "m" <;> by_cases hb' : b = "m" <;> simp_all
 
-theorem f10_results :
-    goResults f10Program = [.ident "s0", .bound ⟨"n0", "nodecomposite", false, true, none⟩ false, .ident "n0", .nilParam "n0"] ∧
-    goResults (f10Program.map (Op.mapKeys (USym.rename id swapNM)))
+theorem f10_results_old :
+    sharedResults_old f10Program = [.ident "s0", .bound ⟨"n0", "nodecomposite", false, true, none⟩ false, .ident "n0", .nilParam "n0"] ∧
+    sharedResults_old (f10Program.map (Op.mapKeys (USym.rename id swapNM)))
       = [.ident "s0", .bound ⟨"n0", "nodecomposite", false, true, none⟩ false, .ident "n0", .param "pi0"] := by
   decide
 
-/-- **c06_full_refuted**: with the shared alias table the full statement is false. -/
-theorem c06_full_refuted : ¬ C06_full := by
+/-- **c06_full_refuted_old**: with the shared alias table the full statement is false. -/
+theorem c06_full_refuted_old : ¬ C06_full_old := by
   intro h
   have := h id swapNM (fun _ _ e => e) swapNM_injective f10Program
   revert this
   decide
 
 /-- the repaired scope handles the same witness -/
-example : fixedResults (f10Program.map (Op.mapKeys (USym.rename id swapNM))) = fixedResults f10Program := by decide
+example : liveResults (f10Program.map (Op.mapKeys (USym.rename id swapNM))) = liveResults f10Program := by decide
 
 /-- and the reverse capture (parameter first, variable second: `… WHERE n.name = $m MATCH (m) …` re-uses the
 PARAMETER's binding pi0 as the node) is the same defect -/
-example : goResults [.useParameter (some (.param "m")), .bindPattern (some (.var "m")) "nodecomposite"]
+example : sharedResults_old [.useParameter (some (.param "m")), .bindPattern (some (.var "m")) "nodecomposite"]
     = [.param "pi0", .bound ⟨"pi0", "parameter_identifier", true, true, none⟩ true] := by decide
 
 /-! ### string-level fallback lookups (Go only): a second, independent capture -/
@@ -240,7 +252,7 @@ theorem prune_alias_choice_unique (p : List (Op K)) (l' : List (K × Ident))
 
 /-! ### non-vacuity -/
 
-/-- a program on which the hypotheses of `scope_renaming_partial` hold and the renaming targets translator
+/-- a program on which the hypotheses of `scope_renaming_partial_old` hold and the renaming targets translator
 names (`n ↦ n0`, `$p ↦ pi0`): both runs give the same generated identifiers -/
 def sampleProgram : List (Op USym) :=
   [.pushFrame, .bindPattern (some (.var "n")) "nodecomposite", .useParameter (some (.param "p")),
@@ -253,9 +265,9 @@ example : NsDisjoint sampleProgram := by
   unfold NsDisjoint; decide
 example : NsDisjoint (sampleProgram.map (Op.mapKeys (USym.rename toTranslatorNames toTranslatorParams))) := by
   unfold NsDisjoint; decide
-example : goResults (sampleProgram.map (Op.mapKeys (USym.rename toTranslatorNames toTranslatorParams))) = goResults sampleProgram := by
+example : sharedResults_old (sampleProgram.map (Op.mapKeys (USym.rename toTranslatorNames toTranslatorParams))) = sharedResults_old sampleProgram := by
   decide
-example : goResults sampleProgram =
+example : sharedResults_old sampleProgram =
     [.ident "s0", .bound ⟨"n0", "nodecomposite", false, true, none⟩ false, .param "pi0", .ident "i0", .ident "i0",
      .unit, .err "unable to resolve"] := by decide
 
